@@ -269,7 +269,19 @@ namespace ratio
         std::vector<lit> lits;
         for (const auto &bex : xprs)
             lits.push_back(bex->l);
-        return new bool_item(*this, sat_cr.new_exct_one(std::move(lits)));
+        // the expression can be used as an operand (e.g., negated), hence its literal must be equivalent to 'exactly one of the operands is true'
+        // (the literal returned by sat_core::new_exct_one only implies it)..
+        std::vector<lit> alts;
+        alts.reserve(lits.size());
+        for (size_t i = 0; i < lits.size(); ++i)
+        {
+            std::vector<lit> c_alt;
+            c_alt.reserve(lits.size());
+            for (size_t j = 0; j < lits.size(); ++j)
+                c_alt.push_back(i == j ? lits[j] : !lits[j]);
+            alts.push_back(sat_cr.new_conj(std::move(c_alt)));
+        }
+        return new bool_item(*this, sat_cr.new_disj(std::move(alts)));
     }
 
     CORE_EXPORT arith_expr core::add(const std::vector<arith_expr> &xprs) noexcept
